@@ -211,6 +211,15 @@ def avg_loss(case):
       pad[MASK] = np.zeros(2, bool)
       got2 = fedjax.evaluate_average_loss(jparams(p), batches + [pad], rng, per_ex, regz)
       cmp_scalar(got2, want, 'evaluate_average_loss with a trailing fully padded batch', nc)
+      # ... and in front / in the middle / nothing but fully padded batches (streamed batch lists)
+      for where, bl in (('leading', [pad, dict(pad)] + batches), ('middle', batches[:1] + [pad] + batches[1:]),
+                        ('only', [pad, dict(pad)] if n == 0 else None)):
+        if bl is None:
+          continue
+        got4 = fedjax.evaluate_average_loss(jparams(p), bl, rng, per_ex, regz)
+        cmp_scalar(got4, want, 'evaluate_average_loss with fully padded batches (%s)' % where, dict(nc, where=where))
+        res4 = dict(ale.evaluate_global_params(jparams(p), [(b'p', bl, jax.random.PRNGKey(6))]))
+        cmp_scalar(res4[b'p'], want, 'AverageLossEvaluator with fully padded batches (%s)' % where, dict(nc, where=where))
       if n >= 2 and (bs, k) == geoms[0]:
         # hand-made batches whose real rows are NOT a prefix (masked rows in front / in between, holding garbage)
         for layout in ('front', 'between', 'split'):
